@@ -42,22 +42,44 @@ def run(rep, tier, seed):
     nviol = [0]
     timing = {'coq+build': round(time.time() - t_start, 1)}
 
+    ncase = [0]
+    def case_ref(line):
+        """replay reference of a case: the line itself, or a side file for long lines"""
+        if len(line) <= 18000:
+            return {'case': line}
+        d = os.path.join(vlib.VERIF, 'replays', 'C16'); os.makedirs(d, exist_ok=True)
+        path = os.path.join(d, 'case-%d-%d.txt' % (seed, ncase[0])); ncase[0] += 1
+        open(path, 'w').write(line + '\n')
+        return {'case': line[:2000] + '...(%d chars, full line in case_file)' % len(line), 'case_file': path}
+
     def both(lines, what, cshards=8):
         t0 = time.time()
         c = run_balanced(vlib, k1, lines, env=env, shards=cshards)
+        # a crashed shard marks every later line of the shard: re-run those alone
+        for i in [i for i, o in enumerate(c) if o.startswith('CRASH')][:300]:
+            c[i] = vlib.run_lines(k1, [lines[i]], env=env)[0]
         t1 = time.time()
         m = run_balanced(vlib, model, lines, shards=vlib.NCPU, cost=model_cost)
         timing[what] = [round(t1 - t0, 1), round(time.time() - t1, 1)]
         rep.evaluated(len(lines)); hist[what] = hist.get(what, 0) + len(lines)
-        vlib.diff_cases(rep, lines, c, m, what)
+        nbad = 0
+        for line, co, mo in zip(lines, c, m):
+            if co != mo:
+                nbad += 1
+                if nbad <= 3:
+                    v = {'kind': 'K1-differential', 'what': what, 'implementation': co[:20000], 'model': mo[:20000]}
+                    v.update(case_ref(line))
+                    rep.violation(v)
         return c, m
 
     def oracle(ok, kind, line, got, expected=None):
         if ok: return
         nviol[0] += 1
         if nviol[0] <= 5:
-            rep.violation({'kind': 'oracle-' + kind, 'case': line[:20000], 'implementation': got[:20000],
-                           'expected': (None if expected is None else str(expected)[:20000])})
+            v = {'kind': 'oracle-' + kind, 'implementation': got[:20000],
+                 'expected': (None if expected is None else str(expected)[:20000])}
+            v.update(case_ref(line))
+            rep.violation(v)
 
     def bad(o):
         return o.startswith('CRASH') or o.startswith('EXC') or o == 'OOB'
@@ -183,7 +205,7 @@ def run(rep, tier, seed):
     configs = []
     combos = [(bs, ri, comp, bits, cmp) for bs in G.BLOCK_SIZES for ri in G.INTERVALS for comp in (0, 1)
               for bits in G.FILTER_BITS for cmp in (0, 1)]
-    ncfg = 70 if quick else len(combos) + 150
+    ncfg = 60 if quick else len(combos) + 150
     budget = (5 << 20) if quick else (400 << 20)     # bytes of entries over all tables
     used = 0
     for i in range(ncfg):
@@ -252,7 +274,7 @@ def run(rep, tier, seed):
         cfg = mt[1]; bs, ri, comp, bits, cmp, es = cfg
         pes = [(e[0], e[1]) for e in es]
         sk = G.sortkey(cmp)
-        short_line = line[:300] + '...'
+        short_line = line
         if mt[0] == 'scan':
             parts = o.split(' ')
             ok = len(parts) == 4 and parts[1] == 'ok' and parts[3] == 'ok' and \
@@ -349,6 +371,7 @@ def run(rep, tier, seed):
                               'table_get %s %s %s' % (o_, hx(g), hx(rng.bytes(rng.range(8, 12)))),
                               'table_iter %s %s F,N,L,P,S%s,N' % (o_, hx(g), hx(rng.bytes(rng.range(8, 12))))]))
     cm, mm = both(ml, 'malformed-differential')
+    if os.environ.get('C16_DUMP_ML'): open(os.environ['C16_DUMP_ML'], 'w').write('\n'.join(ml) + '\n')
     noob = sum(1 for x in mm if x == 'OOB')
     hist['model-OOB-outcomes'] = noob
     # same stream under ASan + UBSan
@@ -375,7 +398,9 @@ def run(rep, tier, seed):
             if o.startswith('CRASH'):
                 crashes += 1
                 if crashes <= 3:
-                    rep.violation({'kind': 'sanitizer-abort', 'case': line[:20000], 'implementation': o[:4000]})
+                    v = {'kind': 'sanitizer-abort', 'variant': 'asan', 'implementation': o[:4000]}
+                    v.update(case_ref(line))
+                    rep.violation(v)
             elif o != oc:
                 oracle(False, 'asan-vs-plain-output', line, o, oc)
         hist['sanitizer-aborts'] = crashes
@@ -404,8 +429,18 @@ def run(rep, tier, seed):
 
 def replay(rep, path):
     r = json.load(open(path))
+    case = open(r['case_file']).read().strip() if r.get('case_file') else r['case']
+    if r.get('kind', '').startswith('oracle-get'):
+        case = case.split(' key=')[0]
     out = vlib.scratch_dir(); tmp = os.path.join(out, 'tmp'); os.makedirs(tmp, exist_ok=True)
-    k1 = vlib.build_k1(out); vlib.ensure_model()
-    c = vlib.run_lines(k1, [r['case']], env={'K1_TMPDIR': tmp}); m = vlib.run_lines(model_cmd(), [r['case']])
+    env = {'K1_TMPDIR': tmp}
+    variant = 'asan' if r.get('variant') == 'asan' else 'nothread'
+    if variant == 'asan':
+        env['ASAN_OPTIONS'] = 'allocator_may_return_null=1:detect_leaks=0'
+    k1 = vlib.build_k1(out, variant); vlib.ensure_model()
+    c = vlib.run_lines(k1, [case], env=env); m = vlib.run_lines(model_cmd(), [case])
     print('implementation:', c[0][:300]); print('model         :', m[0][:300])
+    if r.get('kind', '').startswith('oracle'):
+        print('oracle violation recorded; expected:', str(r.get('expected'))[:300])
+        return 1 if c[0] == r.get('implementation', c[0])[:len(c[0])] else 0
     return 0 if c == m else 1
